@@ -68,6 +68,9 @@ func worker(r *vk.Run, w, n int, args []string) {
 		c.exhaustive(w, n, quick)
 		c.random(w, n, quick)
 		c.long(w, n, quick)
+		if w%4 == 1 || !quick {
+			c.slabHistory()
+		}
 	}
 	algo.Init("default")
 }
